@@ -2,11 +2,14 @@ package checks
 
 import (
 	"fmt"
+	"regexp"
 	"strconv"
 	"strings"
 
+	"github.com/pip-services3-gox/pip-services3-expressions-gox/calculator/parsers"
 	"github.com/pip-services3-gox/pip-services3-expressions-gox/tokenizers"
 
+	"verifharness/model"
 	"verifharness/mon"
 )
 
@@ -187,6 +190,9 @@ func buildOptionChecks(cfg *mon.Config, withPos bool) []*mon.Sub {
 		},
 		Exec: exec,
 	})
+	if withPos {
+		subs = append(subs, c12ErrorPositions(cfg))
+	}
 	if !withPos {
 		subs[0].Final = func(r *mon.SubReport) string {
 			for _, k := range []string{"generic", "expression"} {
@@ -201,4 +207,88 @@ func buildOptionChecks(cfg *mon.Config, withPos bool) []*mon.Sub {
 	}
 	_ = tokenizers.Eof
 	return subs
+}
+
+var reLineCol = regexp.MustCompile(`at line (\d+) and column (\d+)`)
+
+// c12ErrorPositions: positions quoted in syntax-error messages point at the offending token.
+func c12ErrorPositions(cfg *mon.Config) *mon.Sub {
+	return &mon.Sub{
+		Name:  "syntax-error-positions",
+		Rule:  "seeded valid expressions printed with random blanks, tabs and line breaks of all four styles between tokens, made malformed by one stray token at a known offset (an unknown symbol '@' anywhere, or an identifier / constant / ')' appended after the complete expression, or ')' / '*' put in front); the line and column quoted in the error message must be the coordinates the independent line/column model gives for the first character of that token; non-trivial = multi-line source",
+		Floor: 200,
+		Gen: func(emit func(string)) {
+			r := cfg.Rng("c12-errpos")
+			g := &exprGen{r: r}
+			seps := []string{" ", "  ", "\t", "\n", "\r\n", "\n\r", "\r", " \n ", "/* c */ ", "/* a\nb */"}
+			for i := 0; i < cfg.N(3000, 100000); i++ {
+				toks := model.Tokens(g.typed(1+r.Intn(3), mon.Pick(r, []string{"int", "bool", "str"})), nil)
+				mode := r.Intn(3)
+				at := -1
+				stray := ""
+				switch mode {
+				case 0:
+					at = r.Intn(len(toks) + 1)
+					stray = "@"
+				case 1:
+					at = len(toks)
+					stray = mon.Pick(r, []string{"zz", "42", ")", "'s'", "]"})
+				case 2:
+					at = 0
+					stray = mon.Pick(r, []string{")", "*", "]", ","})
+				}
+				all := append(append(append([]string{}, toks[:at]...), stray), toks[at:]...)
+				var b strings.Builder
+				off := 0
+				for k, t := range all {
+					if k > 0 {
+						b.WriteString(mon.Pick(r, seps))
+					}
+					if k == at {
+						off = len([]rune(b.String()))
+					}
+					b.WriteString(t)
+				}
+				emit(strconv.Itoa(off) + "\x00" + b.String())
+			}
+		},
+		Exec: func(c *mon.Case) {
+			i := strings.IndexByte(c.Payload, 0)
+			off, _ := strconv.Atoi(c.Payload[:i])
+			src := c.Payload[i+1:]
+			p := parsers.NewExpressionParser()
+			var err error
+			if pn := mon.Try(func() { err = p.ParseString(src) }); pn != nil {
+				c.Count("panic (reported by C03)")
+				return
+			}
+			if err == nil {
+				c.Count("accepted (C02's business)")
+				return
+			}
+			m := reLineCol.FindStringSubmatch(err.Error())
+			if m == nil {
+				c.Count("error without a position")
+				return
+			}
+			lines, cols := model.LCTable([]rune(src))
+			wl, wc := lines[off+1], cols[off+1]
+			gl, _ := strconv.Atoi(m[1])
+			gc, _ := strconv.Atoi(m[2])
+			if gl != wl || gc != wc {
+				c.Failf("position quoted in a syntax error does not point at the offending token", "source=%q stray token at offset %d (line %d column %d), message: %v", src, off, wl, wc, err)
+				return
+			}
+			c.Count("positions-checked")
+			if strings.ContainsAny(src, "\n\r") {
+				c.NonTrivial()
+			}
+		},
+		Final: func(r *mon.SubReport) string {
+			if r.Counters["positions-checked"] < r.Evaluations/2 {
+				return fmt.Sprintf("only %d of %d malformed expressions produced a positioned error", r.Counters["positions-checked"], r.Evaluations)
+			}
+			return ""
+		},
+	}
 }
